@@ -126,12 +126,14 @@ CONFIGS_QUICK = [
   dict(nd=2, maxq=2, mpm=2, flow=True, dynamic=False, nr=1),
   dict(nd=2, maxq=4, mpm=2, flow=True, dynamic=True, max_retries=1, nr=1),
   dict(nd=1, maxq=2, mpm=1, flow=False, dynamic=False, nr=1, protocol='line'),
+  dict(nd=2, maxq=4, mpm=2, flow=True, dynamic=False, nr=1, ratio=True),       # USE_RATIO_RESET: Slow / Fast events, quality resets
 ]
 CONFIGS_MORE = [
   dict(nd=3, maxq=3, mpm=2, flow=True, dynamic=True, max_retries=2, nr=2, rf=2),
   dict(nd=2, maxq=5, mpm=3, flow=True, dynamic=False, nr=2, low_pct=0.5, hard_pct=1.5),
   dict(nd=4, maxq=4, mpm=4, flow=True, dynamic=True, max_retries=1, nr=1, protocol='line'),
   dict(nd=2, maxq=2, mpm=2, flow=False, dynamic=True, max_retries=1, nr=1),
+  dict(nd=2, maxq=3, mpm=1, flow=True, dynamic=True, max_retries=1, nr=1, ratio=True, protocol='line'),
 ]
 
 
